@@ -181,7 +181,11 @@ void ezc3d::c3d::readParam(unsigned int dataLenghtInBytes, const std::vector<siz
 {
     for (size_t i = 0; i < dimension[currentIdx]; ++i)
         if (currentIdx == dimension.size()-1)
+        {
             param_data.push_back (readInt(dataLenghtInBytes*ezc3d::DATA_TYPE::BYTE));
+            if (fail()) // the dimensions announce more values than the file holds
+                throw std::ios_base::failure("Parameter values go past the end of the file");
+        }
         else
             readParam(dataLenghtInBytes, dimension, param_data, currentIdx + 1);
 }
@@ -191,7 +195,11 @@ void ezc3d::c3d::readParam(const std::vector<size_t> &dimension,
 {
     for (size_t i = 0; i < dimension[currentIdx]; ++i)
         if (currentIdx == dimension.size()-1)
+        {
             param_data.push_back (readFloat());
+            if (fail()) // the dimensions announce more values than the file holds
+                throw std::ios_base::failure("Parameter values go past the end of the file");
+        }
         else
             readParam(dimension, param_data, currentIdx + 1);
 }
@@ -242,7 +250,11 @@ void ezc3d::c3d::_readMatrix(const std::vector<size_t> &dimension,
 {
     for (size_t i = 0; i < dimension[currentIdx]; ++i)
         if (currentIdx == dimension.size()-1)
+        {
             param_data.push_back(readString(ezc3d::DATA_TYPE::BYTE));
+            if (fail()) // the dimensions announce more values than the file holds
+                throw std::ios_base::failure("Parameter values go past the end of the file");
+        }
         else
             _readMatrix(dimension, param_data, currentIdx + 1);
 }
